@@ -84,6 +84,10 @@ def classify(r):
 
 
 def run(ctx):
+    if getattr(ctx, "replay", None):
+        from checks import execreplay
+        if execreplay.replay(ctx, "C01"):
+            return
     ctx.assumptions += [
         "gqlparser (parser, validator, VariableValues) is modelled-not-verified: the model starts from the validated document the real executor obtained",
         "CollectedField.Selections may hold repeated entries in the Go code; the model keeps the first copy (unobservable: sub-selections are merged again one level down)",
